@@ -111,7 +111,10 @@ func c17Inspect(env *zygo.Zlisp, name string, decl c17decl, inName string) (prob
 	return
 }
 
-var c17Values = []string{"1", "-7", `"str"`, "2.5", "true", "nil", "[]", "[1 2]", `["a"]`, "[1.5]", "(IN q:1)", "(TT a:1)", "'c'", "(quote sym)", "(list 1 2)", "(hash q:1)", "12ULL", `[1 "a"]`, "(IN)", "(& (IN q:2))", "(& r)", "(& 5)", "(& (EE))", "int64", "[nil 1]", `[(hash k:"bad")]`, "[(IN q:1)]", "[(EE)]", "(IN z:1)", "oldin"}
+var c17Values = []string{"1", "-7", `"str"`, "2.5", "true", "nil", "[]", "[1 2]", `["a"]`, "[1.5]", "(IN q:1)", "(TT a:1)", "'c'", "(quote sym)", "(list 1 2)", "(hash q:1)", "12ULL", `[1 "a"]`, "(IN)", "(& (IN q:2))", "(& r)", "(& 5)", "(& (EE))", "int64", "[nil 1]", `[(hash k:"bad")]`, "[(IN q:1)]", "[(EE)]", "(IN z:1)", "oldin",
+	// computed arrays: what a builtin returns is typed like the literal with the same elements
+	"(map (fn [x] x) [1 2])", `(map (fn [x] "s") [1 2])`, "(keys (hash 5 1))", "(keys (hash a: 1))", `(append [] "s")`, "(append [] 1)", `(begin (def e9 []) (type? e9) (append e9 "s"))`,
+	`(begin (def e8 [1 2]) (type? e8) (aset e8 0 "s") e8)`, `(rest ["s" 1 2])`, `(slice [1 "a" "b"] 1 3)`, "(map (fn [x] [x]) [1 2])", `(concat [1] ["s"])`, `(appendslice [] ["s"])`}
 
 var c17Good = map[string][]string{
 	"int64": {"1", "-7", "0"}, "string": {`"str"`, `""`}, "float64": {"2.5", "-0.5"}, "bool": {"true", "false"}, "rune": {"'x'", "'q'", `(sget "abc" 1)`},
@@ -132,7 +135,7 @@ func init() {
 	core.Register(&core.Prop{
 		ID:    "C17",
 		Level: "exploration",
-		Rule: "histories of 25 (quick) / 40 (thorough) steps on instances of freshly declared structs (fields int64, string, float64, bool, rune, ([]int64), ([]string), another struct whose name extends the outer struct's name, a pointer to it; plus a struct declared without fields): each step picks one of 20 write routes (constructor, hset with symbol / quoted symbol / [k] / string key, (set r.f v), infix {r.f = v}, (= r.f v), :=, index assignment with symbol and string keys, derefSet and hset through (& r), unjson and unmsgpack of a payload carrying the type name, nested paths {r.in.q = v}, element writes {r.xs[0] = v}), a field (declared, undeclared) and one of 25 value kinds (pointers to the right and to other structs, the type int64 itself, [nil 1]); a third of the steps are writes of an exactly matching value, and the struct is redeclared with different fields in between. " +
+		Rule: "histories of 25 (quick) / 40 (thorough) steps on instances of freshly declared structs (fields int64, string, float64, bool, rune, ([]int64), ([]string), another struct whose name extends the outer struct's name, a pointer to it; plus a struct declared without fields): each step picks one of 20 write routes (constructor, hset with symbol / quoted symbol / [k] / string key, (set r.f v), infix {r.f = v}, (= r.f v), :=, index assignment with symbol and string keys, derefSet and hset through (& r), unjson and unmsgpack of a payload carrying the type name, nested paths {r.in.q = v}, element writes {r.xs[0] = v}), a field (declared, undeclared) and one of 43 value kinds (among them arrays computed by map, keys, append, rest, slice, concat, and arrays changed in place after their type was asked for) (pointers to the right and to other structs, the type int64 itself, [nil 1]); a third of the steps are writes of an exactly matching value, and the struct is redeclared with different fields in between. " +
 			"After EVERY step the monitor inspects each live instance through the exported hash fields: keys must be symbols and declared in the definition in force when the instance was created, values must have the declared type (nil and [] accepted); a step that returned an error must leave the printed instance unchanged; a matching write must succeed and be readable. non-trivial = distinct history containing >=1 rejected write, >=1 accepted write and a redeclaration",
 		Assumptions: []string{
 			"nil is accepted for every field and [] for slice fields (the language's rule)",
